@@ -212,7 +212,9 @@ static size_t ZSTD_decodeLiteralsBlock(ZSTD_DCtx* dctx,
                 } else {
                     if (singleStream) {
 #if defined(HUF_FORCE_DECOMPRESS_X2)
-                        hufSuccess = HUF_decompress1X_DCtx_wksp(
+                        /* not HUF_decompress1X_DCtx_wksp(): it treats cSrcSize == dstSize as stored
+                         * and cSrcSize == 1 as RLE, which a Huffman-compressed literals section is not */
+                        hufSuccess = HUF_decompress1X2_DCtx_wksp(
                             dctx->entropy.hufTable, dctx->litBuffer, litSize,
                             istart+lhSize, litCSize, dctx->workspace,
                             sizeof(dctx->workspace), flags);
